@@ -87,3 +87,20 @@ package bus
 //@   ensures[C16] err == nil ==> at_unlock(has(s.objects, index)) && at_unlock(s.objects[index]) == obj
 //@   call Unlock#2: assert[C16] at_lock(has(s.objects, 1)) ==> !at_lock(has(s.objects, index))
 //@   call NewMailBox#1: assert[C16] at_lock(has(s.objects, 1)) ==> !at_lock(has(s.objects, index))
+
+//@ interface (c Channel) EndPoint() (result net.EndPoint)
+//@   trusted
+//@   pure
+//@   ensures result != nil
+//@ func SelectEndPoint(addrs []string, user string, token string) (addr string, channel Channel, err error)
+//@   trusted
+//@   pure
+//@   ensures err == nil ==> channel != nil
+//@ func NewClient(channel Channel) (result Client)
+//@   trusted
+//@   pure
+//@   ensures result != nil
+//@ interface (c Client) Channel() (result Channel)
+//@   trusted
+//@   pure
+//@   ensures result != nil
